@@ -45,17 +45,17 @@ func init() {
 }
 
 type c19Case struct {
-	Trusted      []string `json:"trusted"`
-	Threshold    int      `json:"threshold"`
-	AuthSigners  []string `json:"auth_signers"`
-	ReviewNames  []string `json:"review_approvers"` // keys whose identity the app's approval names
-	App          bool     `json:"app"`
-	FileRule     bool     `json:"file_rule"`
-	FeatureBy    []string `json:"feature_commits_by"` // signer of each feature commit
-	TouchProt    bool     `json:"touch_protected_path"`
-	GlobalThr    int      `json:"global_threshold"` // 0 = none
-	MergeCommit  bool     `json:"merge_commit"`
-	Candidate    string   `json:"candidate,omitempty"`
+	Trusted     []string `json:"trusted"`
+	Threshold   int      `json:"threshold"`
+	AuthSigners []string `json:"auth_signers"`
+	ReviewNames []string `json:"review_approvers"` // keys whose identity the app's approval names
+	App         bool     `json:"app"`
+	FileRule    bool     `json:"file_rule"`
+	FeatureBy   []string `json:"feature_commits_by"` // signer of each feature commit
+	TouchProt   bool     `json:"touch_protected_path"`
+	GlobalThr   int      `json:"global_threshold"` // 0 = none
+	MergeCommit bool     `json:"merge_commit"`
+	Candidate   string   `json:"candidate,omitempty"`
 }
 
 func c19Gen(r *rand.Rand) c19Case {
